@@ -1427,7 +1427,10 @@ class Container:
         current_concentration = top / bottom
 
         if abs(new_concentration - current_concentration) <= 1e-6 * current_concentration:
-            return deepcopy(self)
+            result = deepcopy(self)
+            if name:
+                result.name = name
+            return result
 
         if new_concentration > current_concentration:
             raise ValueError("Desired concentration is higher than current concentration.")
